@@ -48,9 +48,9 @@ func init() {
 				Bound: "receiver symbolic over all 256 uint8 values"},
 			{Pkg: "aac", Func: "HarnessC11_EncDec", Labels: []string{"encdec"},
 				Bound:  "config symbolic over all valid (object,index,channels); raw length in {1,2,3,24,25,248,249,2040,2041,8183,8184}; raw bytes all symbolic up to 16 bytes, beyond that 5 symbolic positions (first two, middle, last two)",
-				BoundT: "as quick, with EVERY raw length 1..8184"},
+				BoundT: "as quick, with every raw length 1..512 and every multiple of 64 (and its neighbours) up to 8184"},
 			{Pkg: "aac", Func: "HarnessC11_Concat", Labels: []string{"concat"},
-				Bound: "2 frames (thorough: 2-3), each with symbolic valid config and 1-3 (thorough 1-6) symbolic raw bytes"},
+				Bound: "2 frames (thorough: 2-3), each with symbolic valid config and 1-3 (thorough 1-4) symbolic raw bytes"},
 			{Pkg: "aac", Func: "HarnessC11_RefDecode", Labels: []string{"refdecode-crc", "refdecode-nocrc"},
 				Bound: "independent ISO 13818-7 writer: id, protection_absent, private/original/home/copyright bits, 11-bit fullness, 2 CRC bytes symbolic; profile Main/LC/SSR x index 1..12 x channels 1..7 symbolic; raw 1-4 symbolic bytes; 0-2 trailing symbolic bytes"},
 		},
@@ -62,7 +62,7 @@ func init() {
 		Harnesses: []harnessSpec{
 			{Pkg: "flv", Func: "HarnessC09_Mux", Labels: []string{"mux"},
 				Bound:  "flags 2 symbolic bools; 1-2 tags; type 8 symbolic bits, timestamp 32 symbolic bits; first body 0-3 symbolic bytes or 255/256/65535/65536 bytes (3 symbolic positions, patterned filler), second body 0-3 symbolic bytes",
-				BoundT: "as quick with small bodies 0-8 and boundary sizes 255,256,65524,65525,65535,65536,65537,131071,2^24-1"},
+				BoundT: "as quick with small bodies 0-8 and boundary sizes 255,256,65524,65525,65535,65536,65537,131071,2^20 and (muxer layout only) 2^24-1"},
 			{Pkg: "flv", Func: "HarnessC09_RoundTrip", Labels: []string{"roundtrip"},
 				Bound: "as Mux; reader segmentation: whole / fixed chunks (1 byte for files <= 64 bytes, else 4093) / one split point at every offset (files <= 40 bytes) or within +-2 of every structural boundary"},
 			{Pkg: "flv", Func: "HarnessC09_RefDemux", Labels: []string{"refdemux"},
